@@ -1,0 +1,16 @@
+//go:build verif
+
+// Add-only exports for the C10 (codec / recovery) correspondence harness in /verif.
+// Thin wrappers around the unexported segment constructors; no logic.
+package wal
+
+// VerifOpenReadOnlySegment opens the read-only segment <basePath>/<baseOffset>.{txn,txnx}.
+func VerifOpenReadOnlySegment(basePath string, baseOffset int64) (ReadOnlySegment, error) {
+	return newReadOnlySegment(basePath, baseOffset)
+}
+
+// VerifOpenReadWriteSegment opens (recovers) the read-write segment <basePath>/<baseOffset>.{txn,txnx}.
+func VerifOpenReadWriteSegment(basePath string, baseOffset int64, segmentSize uint32, lastCrc uint32,
+	commitOffsetProvider CommitOffsetProvider) (ReadWriteSegment, error) {
+	return newReadWriteSegment(basePath, baseOffset, segmentSize, lastCrc, commitOffsetProvider)
+}
